@@ -166,6 +166,8 @@ def session_worker(job):
             if mute["on"]:
                 return None
             return mibagent.answer(mib, req, agent, 5)
+        if mute.get("all"):
+            return None
         return agent.discovery_or(req, f)
     agent = rigp.Agent(handler, users=[cfg.user_keys()]).start()
     for k, rps in enumerate(job["rps"]):
@@ -182,6 +184,17 @@ def session_worker(job):
         res["ops"]["how:" + how] = 1
         drv = driver.Driver(cfg, agent, timeout=2.0, **rate_kw()).create()
         # refresh()/open is not rate-limited by the statement's API list; start counting after it
+        if cfg.version == "v3" and (k + job["seed"]) % 2 == 0:
+            # the session's very first exchange fails (agent unreachable: the context entry times out) and the same
+            # session object is entered again, as a reconnect loop does: it is still a rate-limited session
+            drv.close()
+            drv = driver.Driver(cfg, agent, timeout=0.3, **rate_kw()).create()
+            mute["all"] = True
+            o = drv.call("open")
+            mute["all"] = False
+            res["ops"]["how:first-open-lost"] = 1
+            if o[0] != "exc":
+                res["inconclusive"].append("the first open was expected to time out: %r" % (o,))
         drv.call("open")
         arrivals.clear()
         for i in range(job["n"]):
